@@ -88,6 +88,18 @@ func TestCampaign(t *testing.T) {
 					env.Stats.Label("known_hit:" + r.VKey)
 					continue
 				}
+				if os.Getenv("VERIF_SURVEY") == "1" {
+					env.Stats.Label("viol:" + r.VKey)
+					d := filepath.Join(os.Getenv("VERIF_SURVEY_DIR"), sanitize(r.VKey))
+					if !fileExists(d) {
+						core.SaveCase(d, p.ID, c, r)
+					}
+					if f, err := os.OpenFile(filepath.Join(os.Getenv("VERIF_SURVEY_DIR"), "all.txt"), os.O_APPEND|os.O_CREATE|os.O_WRONLY, 0o644); err == nil {
+						fmt.Fprintf(f, "%s\t%s\n", r.VKey, r.Key)
+						f.Close()
+					}
+					continue
+				}
 				fail(c, r)
 				t.Fatalf("exhaustive case %d: %s", i, r.Violation)
 			}
